@@ -1,12 +1,21 @@
 """MANIFEST.setup_cmd: warm build caches (optional; every check also works from a cold start)."""
 import os, shutil, subprocess, sys
-from vcommon import CACHE_ROOT, VERIF, base_env
+from vcommon import CACHE_ROOT, REPO, VERIF, base_env
 
 
 def build_driver(quiet=False):
     """(Re)build the driver against /repo's current tree. Returns path to the binary or raises."""
     os.makedirs(CACHE_ROOT, exist_ok=True)
     ddir = os.path.join(VERIF, "driver")
+    if os.path.realpath(REPO) != "/repo":
+        # development aid (ABRA_REPO points at a scratch copy, e.g. a seeded change): build a copy of the driver against that tree
+        d2 = os.path.join(CACHE_ROOT, "driver_src")
+        shutil.rmtree(d2, ignore_errors=True)
+        shutil.copytree(ddir, d2, ignore=shutil.ignore_patterns("target", "Cargo.lock"))
+        toml = open(os.path.join(d2, "Cargo.toml")).read().replace('"/repo/abra_core"', '"%s/abra_core"' % REPO)
+        open(os.path.join(d2, "Cargo.toml"), "w").write(toml)
+        shutil.copy(os.path.join(REPO, "Cargo.lock"), os.path.join(d2, "Cargo.lock"))
+        ddir = d2
     lock = os.path.join(ddir, "Cargo.lock")
     if not os.path.exists(lock):
         shutil.copy("/repo/Cargo.lock", lock)
